@@ -143,6 +143,75 @@ static void check_tree(const Tree& t, int only = -1) {
     }
 }
 
+// ---- scalar-TYPE regime ----------------------------------------------------
+// The root of t is a mixed form whose scalar (c4..c8 = 2,10,3,-4,1) is handed to
+// the library with C++ type `st` (double/float/int/unsigned/long/short).  The
+// headers take `const RhsValueType&` and promise conversion to ValueType, and
+// every value of the alphabet is exactly representable in every type used, so
+// the result must be (a) the dual-number reference with the scalar double(s),
+// (b) the all-Evaluation twin with createConstant(double(s)), and (c) BIT FOR
+// BIT the result of the same form with a double scalar.
+static long long n_typed = 0, n_typed_skipped = 0, n_typed_absent = 0, n_cmp = 0;
+static std::string typed_case(const Variant& v, const Tree& t, int st) { return v.name + " " + to_string(t) + "@" + stype_name(st); }
+static void check_typed(const Tree& t, int st, int only = -1) {
+    Dual ref; ref_saw_atan2_y0() = false;
+    if (ref_eval(t, t.root(), MAXN, ref) != SK_OK) { n_typed_skipped++; return; }
+    const Node& root = t.n[t.root()];
+    const KindInfo& rk = info(root.kind);
+    bool lift = true;
+    if (root.kind == POW_ES) { Dual c; Tree cs = subtree(t, root.a); if (ref_eval(cs, cs.root(), 1, c) != SK_OK || !(c.v > 0)) lift = false; }
+    double out[MAXN + 1], out2[MAXN + 1], outd[MAXN + 1];
+    for (size_t vi = 0; vi < V.size(); ++vi) {
+        if (only >= 0 && (int)vi != only) continue;
+        const Variant& v = V[vi];
+        const std::string key = "C16:" + v.cls + ":" + rk.name + ":" + stype_name(st);
+        try {
+            if (!v.eval_typed(t, v.n, st, out)) { n_typed_absent++; continue; }
+            n_typed++; R->evaluations++;
+            const std::string rp = "{\"case\": " + vf::jstr(typed_case(v, t, st)) + "}";
+            int slot = -1; const int what = compare(out, ref, v.n, &slot);
+            if (what) { R->violation(key + (what == 1 ? ":value" : ":deriv"), typed_case(v, t, st) + " (scalar " + vf::fmt17(scalar_value(root.par)) + " passed as " + stype_name(st) + ") gives " + describe(out, ref, v.n, what, slot), rp); continue; }
+            if (lift) {
+                v.eval_lifted(t, v.n, out2);
+                int bad = -2;
+                if (!close_to(out[0], out2[0], ref.vs, 2 * TOL_V)) bad = -1;
+                for (int i = 0; bad == -2 && i < v.n; ++i) if (!close_to(out[1 + i], out2[1 + i], ref.ds[i], 2 * TOL_D)) bad = i;
+                if (bad != -2) { R->violation(key + ":mixed-vs-lifted", typed_case(v, t, st) + " differs from the all-Evaluation form with createConstant(double(s)) in " + (bad < 0 ? std::string("the value") : "derivative(" + std::to_string(bad) + ")"), rp); continue; }
+            }
+            if (st != ST_DOUBLE) {
+                v.eval_typed(t, v.n, ST_DOUBLE, outd);
+                for (int i = 0; i <= v.n; ++i)
+                    if (vf::dbits(out[i]) != vf::dbits(outd[i]) && !(std::isnan(out[i]) && std::isnan(outd[i]))) {
+                        R->violation(key + ":differs-from-double-scalar", typed_case(v, t, st) + ": " + (i == 0 ? std::string("value") : "derivative(" + std::to_string(i - 1) + ")") + " = " + vf::fmt17(out[i]) + ", but " + vf::fmt17(outd[i]) + " when the same scalar " + vf::fmt17(scalar_value(root.par)) + " is passed as double (RhsValueType must be converted to ValueType)", rp);
+                        break;
+                    }
+            }
+            uint64_t h = mix(vf::fnv(t.n, sizeof(Node) * t.cnt), vi * 16 + st);
+            for (int i = 0; i <= v.n; ++i) h = mix(h, vf::dbits(out[i]));
+            if (h % g_obs_mod == 0) { R->observe(h); n_obs++; }
+        } catch (const std::exception& e) { R->violation(key + ":throws", typed_case(v, t, st) + " threw: " + e.what(), "{\"case\": " + vf::jstr(typed_case(v, t, st)) + "}"); }
+    }
+}
+// comparisons of (subtree result) with a typed scalar
+static void check_cmp(const Tree& t, int sidx, int st, int only = -1) {
+    Dual ref;
+    if (ref_eval(t, t.root(), 1, ref) != SK_OK) return;
+    double out[MAXN + 1];
+    const double sv = scalar_value(sidx);
+    for (size_t vi = 0; vi < V.size(); ++vi) {
+        if (only >= 0 && (int)vi != only) continue;
+        const Variant& v = V[vi];
+        v.eval(t, t.root(), v.n, out);
+        const unsigned got = v.cmp_typed(t, v.n, st, sv), want = cmp_expected(out[0], sv);
+        n_cmp++; R->evaluations++;
+        if (got != want) {
+            int b = 0; while (!((got ^ want) >> b & 1)) ++b;
+            const std::string cs = v.name + " cmp " + to_string(t) + " c" + std::to_string(sidx) + "@" + stype_name(st);
+            R->violation("C16:" + v.cls + ":cmp:" + cmp_name(b) + ":" + stype_name(st), cs + ": with x = " + vf::fmt17(out[0]) + " and s = " + vf::fmt17(sv) + " passed as " + stype_name(st) + ", " + cmp_name(b) + " gives " + ((got >> b & 1) ? "true" : "false"), "{\"case\": " + vf::jstr(cs) + "}");
+        }
+    }
+}
+
 // ---- guard for dynamic `scalar / Evaluation` -------------------------------
 // (defect sighted in the design phase, fixed since: `Evaluation tmp(a)` picked
 // the (int numDerivatives) constructor and tripped an assertion.)  The 4x4
@@ -214,6 +283,7 @@ int main(int argc, char** argv) {
     run.rule = std::string("ALL expression trees of depth <= 2") + (thorough ? " plus ALL trees of depth 3 with <= 5 nodes (leaves counted)" : "")
         + " over 62 operator forms: + - * / as Eval.Eval / Eval.scalar / scalar.Eval, += -= *= /= with Evaluation and scalar rhs, unary minus, pow (3 overloads), sqrt exp log log10 sin cos tan asin acos atan sinh cosh asinh acosh abs, atan2 min max (3 forms each), and 14 aliasing forms on one object r: r+=r r-=r r*=r r/=r, r+r r-r r*r r/r, pow(r,r), atan2(r,r), r+=r.value() r-=r.value() r*=r.value() r/=r.value() (scalar rhs is a reference into r's own storage);"
           " leaves x0..x3 = {0.37,-0.62,1.3,2.1} with derivative slot i = +-prime[i]/{9.7,10.1,10.3,10.7}[leaf], scalars c0..c3 = {0.75,2,-1.25,1.3};"
+          " SCALAR-TYPE regime: every mixed form (20) x every operand tree of depth <= 1 x scalar values c4..c8 = {2,10,3,-4,1} passed with C++ type {double,float,int,unsigned,long,short} (unsigned: no -4), judged by the reference with double(s), by the all-Evaluation twin with createConstant(double(s)) and bit-for-bit against the same form with a double scalar; the 11 comparison forms x==s x!=s x<s x>s x<=s x>=s s<x s>x s<=x s>=x s!=x likewise;"
           " executed on EVERY variant: static 1..12, generic 13..16, dynamic<.,8> with run-time sizes " + vf::join_ints(dyn_sizes)
         + "; oracle: independent dual number (value + vector of partials, calculus rules, error scale): value to 1e-14, every partial to 1e-12 relative to the conditioning scale;"
           " mixed root forms compared with their all-Evaluation twin (scalar lifted to a constant) on the real code; variants agree through the common reference (slot i of a leaf does not depend on N);"
@@ -222,12 +292,18 @@ int main(int argc, char** argv) {
         "reference dual-number evaluator in the harness (calculus rules + first-order error scale) and libm's scalar functions are trusted",
         "values: the 4-leaf / 4-scalar fingerprint alphabet only; the tree structure (operator x operator x operand form x leaf assignment) is exhaustive up to the bound, the real line is not",
         "trees whose reference leaves a function's domain (log/sqrt <= 0, |asin/acos arg| >= 1, acosh arg <= 1, division by 0, pow with base <= 0 resp. negative base and non-integer exponent, atan2(0,0)), sits on a kink (abs(0), min/max tie), is ill-conditioned by the formula itself (|asin/acos arg| > 0.99, acosh arg < 1.01) or leaves 1e-60..1e60 are skipped and counted",
-        "scalar operands are double only (int / float RhsValueType not enumerated); ValueType = double only",
+        "scalar C++ types double/float/int/unsigned/long/short are enumerated at the root of depth <= 2 trees only (inner mixed nodes use double scalars); ValueType = double only; atan2 takes its scalar as `const ValueType&`, so non-double scalars are not provided there (counted); `s == x` is not provided by the headers",
         "Evaluation factories other than createConstant + setDerivative (createVariable, createBlank, copyDerivatives) are outside this property's operator/function scope"};
 
     if (!rv.empty()) {
         int vi = -1; for (size_t i = 0; i < V.size(); ++i) if (V[i].name == rv) vi = (int)i;
         if (vi < 0 && rv != "all") throw std::runtime_error("unknown variant " + rv);
+        int rst = -1; { size_t at = rt.rfind('@'); if (at != std::string::npos) { for (int k = 0; k < NSTYPES; ++k) if (rt.substr(at + 1) == stype_name(k)) rst = k; rt = rt.substr(0, at); } }
+        if (rt.rfind("cmp ", 0) == 0) {          // "<variant> cmp <tree> c<idx>@<type>"
+            size_t sp2 = rt.rfind(' '); Tree ct = parse_tree(rt.substr(4, sp2 - 4)); int sidx = std::atoi(rt.c_str() + sp2 + 2);
+            int cvi = -1; for (size_t i = 0; i < V.size(); ++i) if (V[i].name == rv) cvi = (int)i;
+            check_cmp(ct, sidx, rst < 0 ? 0 : rst, cvi); return run.finish();
+        }
         Tree t = parse_tree(rt);
         run.current(run.replay_path);
         if (vi < 0) probe_dynamic_div_se();          // "all": every variant, dynamic scalar/Evaluation guarded as in the full run
@@ -236,6 +312,7 @@ int main(int argc, char** argv) {
             if (rc != 0 && rc != 6) { report_dyn_div_se(V[vi], t, rc, 0, 0); return run.finish(); }
             if (rc == 6) { run.count("skipped_outside_domain"); return run.finish(); }
         }
+        if (rst >= 0) { check_typed(t, rst, vi); return run.finish(); }
         check_tree(t, vi);
         for (int s = 1; s < 5; ++s) if (n_skip[s]) run.count(skip_name(s), n_skip[s]);
         run.count("trees_judged", n_checked);
@@ -260,7 +337,7 @@ int main(int argc, char** argv) {
     for (int b : bl) for (auto& l1 : d0) for (auto& l2 : d0) d1.push_back(t_bin(b, l1, l2));
     t01 = d0; t01.insert(t01.end(), d1.begin(), d1.end());
 
-    bool stop = false; long long n_mine = 0;
+    bool stop = false; long long n_mine = 0, n_typed_cases = 0, n_cmp_cases = 0;
     auto visit = [&](const Tree& t) {
         if (run.mine()) {
             if ((++n_mine & 0x3ff) == 0 && run.timed_out()) stop = true;
@@ -286,9 +363,28 @@ int main(int argc, char** argv) {
         for (int b : bl) { if (stop) break; for (auto& c : uul) for (auto& l : d0) { visit(t_bin(b, c, l)); visit(t_bin(b, l, c)); } }
         n_d3 = n_trees - before;
     }
+    // ---- scalar-type regime: every mixed form x every operand tree of depth <= 1 x 6 scalar types x 5 values ----
+    {
+        std::vector<int> mixed; for (int k = 1; k < NKINDS; ++k) if (info(k).ar == A_ES || info(k).ar == A_SE) mixed.push_back(k);
+        for (int k : mixed) for (auto& c : t01) for (int sidx = NSCAL; sidx < NSCAL_ALL && !stop; ++sidx) for (int st = 0; st < NSTYPES; ++st) {
+            if (st == ST_UNSIGNED && scalar_value(sidx) < 0) continue;           // not representable
+            if (run.mine()) { if ((++n_mine & 0x3ff) == 0 && run.timed_out()) stop = true; check_typed(t_un(k, sidx, c), st); }
+            ++n_typed_cases;
+        }
+        for (auto& c : t01) for (int sidx = NSCAL; sidx < NSCAL_ALL; ++sidx) for (int st = 0; st < NSTYPES; ++st) {
+            if (st == ST_UNSIGNED && scalar_value(sidx) < 0) continue;
+            if (run.mine()) check_cmp(c, sidx, st);
+            ++n_cmp_cases;
+        }
+    }
     if (stop) run.cap_note += "enumeration stopped at tree " + std::to_string(n_trees) + "; ";
 
     if (run.shard == 0) { run.count("trees_in_bound", n_trees); run.count("trees_depth3", n_d3); run.count("variants", (long long)V.size()); run.count("operator_forms", NKINDS - 1); }
+    if (run.shard == 0) { run.count("scalar_type_cases_in_bound", n_typed_cases); run.count("scalar_type_comparison_cases_in_bound", n_cmp_cases); }
+    run.count("scalar_type_evaluations", n_typed);
+    run.count("scalar_type_cases_skipped_domain_or_kink", n_typed_skipped);
+    run.count("scalar_type_forms_not_provided_by_headers", n_typed_absent);
+    run.count("scalar_type_comparison_evaluations", n_cmp);
     run.count("trees_judged", n_checked);
     for (int s = 1; s < 5; ++s) run.count(skip_name(s), n_skip[s]);
     run.count("trees_with_atan2_y_zero", n_y0);
